@@ -1005,7 +1005,7 @@ func (c11) Exec(c string) (string, []Fail) {
 		// the pieces IFragments is asked to cut (independent of the code: from the documented parameters)
 		type piece struct{ a, b int }
 		pieces := []piece{{0, L}}
-		if frag {
+		if frag && !o.circ { // --fragmented is ignored with --circular (patch C11-circular-not-fragmented)
 			minsize, length := o.max*1000, o.max*100
 			overlap := o.max + len(o.fwd) + len(o.rev)
 			if o.ext >= 0 {
@@ -1024,14 +1024,6 @@ func (c11) Exec(c string) (string, []Fail) {
 						break
 					}
 					pieces = append(pieces, piece{i, e})
-				}
-			}
-		}
-		if o.circ {
-			for _, pc := range pieces {
-				if pc.b-pc.a < c11MaxPatLen && max(len(o.fwd), len(o.rev)) > pc.b-pc.a {
-					caseTrivial = true
-					return "unmodelled", nil
 				}
 			}
 		}
@@ -1056,7 +1048,7 @@ func (c11) Exec(c string) (string, []Fail) {
 			defer dbg()
 			obipcr.VerifSetOptions(o.fwd, o.rev, o.ef, mn, o.max, oc.ext, o.full, o.circ, frag)
 			tpl := obiseq.NewBioSequence("x", t, "")
-			tpl.SetAttribute("c11tag", 0)
+			c11SetTplAnnot(tpl, 1)
 			src := obiiter.IBatchOver("x", obiseq.BioSequenceSlice{tpl}, 10)
 			it, err := obipcr.CLIPCR(src)
 			if err != nil {
@@ -1074,27 +1066,15 @@ func (c11) Exec(c string) (string, []Fail) {
 						start, _ = strconv.Atoi(frg[:strings.Index(frg, "..")])
 						start--
 					}
-					c11CheckAnnot(s, o, 0)
-					a := c11Amp{from: start + from1 - 1, amp: string(s.Sequence()), dir: '?'}
-					if d, _ := s.GetAttribute("direction"); d == "forward" {
-						a.dir = 'f'
-					} else if d == "reverse" {
-						a.dir = 'r'
-					}
-					v, _ := s.GetAttribute("forward_match")
-					a.fm, _ = v.(string)
-					v, _ = s.GetAttribute("reverse_match")
-					a.rm, _ = v.(string)
-					v, _ = s.GetAttribute("forward_error")
-					a.fe, _ = v.(int)
-					v, _ = s.GetAttribute("reverse_error")
-					a.re, _ = v.(int)
+					c11CheckAnnot(s, o, 1)
+					a := c11Amp{from: start + from1 - 1, amp: string(s.Sequence())}
+					c11ReadAnnot(s, &a)
 					got = append(got, famp{a, frg, start})
 				}
 			}
 			xs := make([]string, len(got))
 			for i, g := range got {
-				xs[i] = fmt.Sprintf("%c/%s/%d/%s/%s/%d/%s/%d", g.a.dir, g.frag, g.a.from+1, hx([]byte(g.a.amp)), hx([]byte(g.a.fm)), g.a.fe, hx([]byte(g.a.rm)), g.a.re)
+				xs[i] = fmt.Sprintf("%c/%s/%d/%s/%s", g.a.dir, g.frag, g.a.from+1, hx([]byte(g.a.amp)), g.a.annotFields())
 			}
 			sort.Strings(xs)
 			if len(xs) == 0 {
@@ -1138,12 +1118,6 @@ func (c11) Exec(c string) (string, []Fail) {
 			}
 			if len(s) > 0 {
 				fail("cli.spurious."+mode, "reported but not an amplicon of the template: %s", c11Cut(s))
-			}
-		case o.circ:
-			// --fragmented --circular: every linear piece is searched as a circle (proposed finding)
-			m, s := c11Diff(c11Uniq(c11Keys(exp, true, false)), c11Uniq(gk))
-			if len(m)+len(s) > 0 {
-				fail("cli.circular-fragments", "obipcr --circular --fragmented searches each piece as a circle: amplicons of the circular template found on no piece: %s ; reported on a piece but not an amplicon of the template: %s", c11Cut(m), c11Cut(s))
 			}
 		default:
 			m, s := c11Diff(c11Uniq(c11Keys(exp, true, false)), c11Uniq(gk))
